@@ -595,6 +595,18 @@ func runC12(c *Ctx) {
 			c.ok("R-LEAN-AGREE", "slice.LISFunc:sortedness shortcut", lis.Pos(), "no non-strict sortedness shortcut in the strict variant")
 		}
 	}
+	// LCS -> LCSFunc(as, bs, ==): the comparable-typed wrapper hands its two inputs on as they are
+	if lcs, lcsf := P.Func("slice", "", "LCS"), P.Func("slice", "", "LCSFunc"); lcs != nil && lcsf != nil && len(lcs.Params) == 2 {
+		okD := false
+		allInstrs(lcs, func(in ssa.Instruction) {
+			if call, ok := in.(*ssa.Call); ok && origin(staticCallee(&call.Call)) == lcsf && len(call.Call.Args) >= 2 {
+				if call.Call.Args[0] == ssa.Value(lcs.Params[0]) && call.Call.Args[1] == ssa.Value(lcs.Params[1]) {
+					okD = true
+				}
+			}
+		})
+		c.judge(okD, "R-LEAN-AGREE", "slice.LCS:delegates", lcs.Pos(), "calls LCSFunc(as, bs, …) with its own arguments", "LCS does not hand its two inputs to LCSFunc as they are (a pre-filtered or reordered copy is compared instead): the result is a common subsequence of something else and can be shorter than the optimum")
+	}
 	// LIS -> LISFunc(cmp.Compare), LNDS -> LNDSFunc(cmp.Compare)
 	for _, pr := range [][2]string{{"LIS", "LISFunc"}, {"LNDS", "LNDSFunc"}} {
 		fn, target := P.Func("slice", "", pr[0]), P.Func("slice", "", pr[1])
